@@ -20,11 +20,21 @@ CHECKS = {
           "Tens of thousands of generated (matcher, configuration, input) cases; each compares the complete event stream and final byte count of search_slice with 4-8 other strategies: fragmented readers with hook-set buffer capacities down to 0/1 byte, the smallest sufficient heap limit found by bisection, search_path with and without mmap, inputs crossing the 64 KiB default buffer, and all of it again with multi_line(true) requested. Random exploration with shrinking.",
           "Needs the verif-hooks capacity hook to make the buffer roll on small inputs; Interrupted reads are exercised in C16, not here.",
           "DESIGN.md section 3 C02"),
+  "C10": (True, "exploration",
+          "proptest-driven generated trees/patterns/flags; metamorphic relations between nine reporting modes of the real rg binary",
+          "Thousands of generated (tree, pattern, flags) cases, a third with patterns that match the empty string; each runs the real binary under standard, -c, --count-matches, -o, -l, --files-without-match, -q, --json and --stats and checks the documented pairwise relations per file and in total (counts, submatches, partitions of the searched files, exit status, stats sums). Random exploration with shrinking.",
+          "Documented mode normalisations are part of the relation (-v --count-matches = --count; under -U --count may equal --count-matches; -o not compared under -U/-v); one known finding (empty match at the end of an unterminated last line) tolerated by exact shape.",
+          "DESIGN.md section 3 C10"),
   "C11": (True, "exploration",
           "exhaustive small-grammar pattern enumeration + random patterns + repository pattern corpus; per pattern an automata-product search generates a witness line iff one exists, and the witness is executed against the real matcher (concrete oracle)",
           "Every pattern AST up to 4 nodes (5 thorough) over 9 leaves x LF/CRLF/NUL x plain/-i/-w/-x, every AST up to 6 nodes (7 thorough) of a literal-extraction grammar x plain/-w, ~900 pattern-like literals from the repository, and thousands of random larger patterns. For each accepted pattern the compiled HIR (hook) becomes a dense DFA; BFS over the DFA / DFA products decides over ALL terminator-free byte strings whether a match can contain a terminator or a declared non-matching byte, whether a matching line exists that contains none of the extracted inner literals, and whether the pattern differs from its unterminated build; found witnesses are confirmed by find_at / is_match / find_candidate_line. Exact per pattern (ASCII for Unicode word boundaries); patterns are enumerated to a bound and sampled beyond.",
           "regex-automata's DFA construction is trusted only as a witness generator (a wrong DFA can lose witnesses, never raise an alarm); needs the verif-hooks HIR/literal accessors; one known finding (NUL terminator vs line anchors) tolerated by exact signature.",
           "DESIGN.md section 3 C11"),
+  "C12": (True, "exploration",
+          "exhaustive path sweep (all paths over {a,b,.,/,-,A} up to length 6) per generated glob set for set-vs-member consistency; proptest-driven (glob, path) pairs against an independent backtracking glob model",
+          "1000 generated glob sets (10 000 thorough) x all 55 986 paths (335 922 thorough): GlobSet::matches must equal the set of member globs that match individually, for every path; plus 100k (glob, path) pairs and 40k random sets with long / non-UTF-8 / newline paths checked against a from-scratch matcher of the documented syntax. Paths exhaustive to the bound per set; sets sampled.",
+          "The GlobModel encodes the crate documentation; shapes the documentation is silent on (leading '/', '//', classes vs '/', non-ASCII under ?/classes) are excluded from the meaning oracle only and counted.",
+          "DESIGN.md section 3 C12"),
   "C13": (True, "exploration",
           "proptest-driven generated multi-line patterns and inputs; oracle = matches enumerated with Matcher::find_at over the whole input mapped to lines + LineModel",
           "Tens of thousands of generated -U patterns (templates around \\n plus grammar-generated ones forced to cross line boundaries) on inputs assembled from strings of the pattern's language; the delivered match blocks, context, numbering and offsets are compared with an independent enumeration of the matches over the whole input, with and without -v, context, CRLF/NUL, under slice, reader, file and mmap strategies. Random exploration with shrinking.",
@@ -35,6 +45,11 @@ CHECKS = {
           "For each of tens of thousands of generated searches every event index (begin, match, context, break, binary notice) is used once as a stop point and once as an error point, and every read index once as an I/O error and once as Interrupted; delivered events must be exactly the prefix, finish exactly once after a stop and never after an error, the error returned. Complete over the fault points of each explored run; runs themselves are sampled.",
           "An Interrupted read that some layer retries (search completes with full results) is accepted as well as one surfaced as an error: the property fixes the prefix/finish/error contract, not which layer retries.",
           "DESIGN.md section 3 C16"),
+  "C17": (True, "exploration",
+          "proptest-driven generated texts/encodings/read fragmentations; differential oracle = encoding_rs one-shot decoding, then the same search on the UTF-8 bytes",
+          "12 000 generated cases (180 000 thorough): texts with BMP/astral characters, lone surrogates, odd byte counts, malformed double-byte sequences, encoded as UTF-16LE/BE/UTF-8 with BOM or searched with an explicit label, BOM vs conflicting label, --encoding none; each searched under slice, fragmented readers (splitting code units and surrogate pairs, crossing the 8 KiB transcoding buffer), file and mmap, and compared event by event with the search of the one-shot transcoding; plus a CLI sample. Random exploration with shrinking.",
+          "Trusts encoding_rs's one-shot decode as the meaning of 'its UTF-8 transcoding'; four known findings rooted in encoding_rs_io / encoding_rs are tolerated by exact predicted deviation.",
+          "DESIGN.md section 3 C17"),
   "C03": (True, "exploration",
           "exhaustive small-scope enumeration + proptest-driven random cases against a reference model (LineModel)",
           "Every input of up to 5 lines over a 5-symbol line alphabet and every match bitmap up to 9 lines (quick; 7/11 thorough), times the full product of context sizes 0..3, invert, passthru, stop-on-nonmatch, line numbers, LF/CRLF/NUL, 4 matcher kinds and 5 strategies is compared event by event with an independent grep model; plus thousands of random larger cases. Bounded-exhaustive, not a proof.",
